@@ -329,7 +329,12 @@ pixman_glyph_cache_insert (pixman_glyph_cache_t  *cache,
     width = image->bits.width;
     height = image->bits.height;
 
-    if (cache->n_glyphs >= HASH_SIZE)
+    /* Tombstones occupy slots too, and the probe loop of lookup_glyph()
+     * ends only at a NULL slot: refuse the glyph that would take the
+     * last one.  (A table that is full of tombstones is dumped by the
+     * next outermost thaw.)
+     */
+    if (cache->n_glyphs + cache->n_tombstones >= HASH_SIZE - 1)
 	return NULL;
 
     if (!(glyph = malloc (sizeof *glyph)))
